@@ -65,7 +65,7 @@ def main(argv=None):
     for ui, u in enumerate(prop.units):
         nvar = len(getattr(getattr(u, "contract", None), "variants", [None])) if hasattr(u, "contract") else 1
         if getattr(u, "kind", "") in ("contract",) and hasattr(u, "contract") and nvar > 1:
-            for vi in (u.variant_indices() if hasattr(u, "variant_indices") else range(nvar)):
+            for vi in (u.variant_indices(tier) if hasattr(u, "variant_indices") else range(nvar)):
                 jobs.append((args.pid, ui, vi, args.repo, tier, seed))
         else:
             jobs.append((args.pid, ui, None, args.repo, tier, seed))
